@@ -554,7 +554,10 @@ def _scenarios():
                                 ((2, 3), ((0,), (0, 1)), ('sparse', 'dense')), ((2, 3, 2), ((0, 2), (1,)), ('sparse', 'sparse')),
                                 ((2, 3, 2), ((2,), (0, 1)), ('sparse', 'dense')), ((2, 2, 3), ((1, 0), (2,)), ('dense', 'sparse')),
                                 ((2, 3), ((0,), (1,), (0,)), ('sparse', 'sparse', 'dense')), ((2, 3, 2), ((2,), (0,), (1,)), ('sparse', 'sparse', 'sparse')),
-                                ((3,), ((0,), (0,)), ('sparse', 'sparse'))):
+                                ((3,), ((0,), (0,)), ('sparse', 'sparse')),
+                                # a factor that BRIDGES two clusters that were disjoint until it arrived: (a_i b_j) c_ij
+                                ((2, 3), ((0,), (1,), (0, 1)), ('sparse', 'sparse', 'dense')), ((2, 2), ((0,), (1,), (0, 1)), ('sparse', 'sparse', 'sparse')),
+                                ((2, 3), ((0, 1), (0,), (1,)), ('dense', 'sparse', 'sparse'))):
         def b(cx, dims=dims, wheres=wheres, kinds=kinds):
             fs = []
             for n, (w, kind) in enumerate(zip(wheres, kinds)):
